@@ -566,6 +566,7 @@ class Forcing(BaseForce):
         nc = Dataset(self.file_idx[time_step])
         nc.set_auto_maskandscale(False)
         self._nc = nc
+        self._open_file = self.file_idx[time_step]
 
         # Get scaling info per variable
         self.scaled = dict()
@@ -580,6 +581,15 @@ class Forcing(BaseForce):
             else:
                 self.scaled[key] = False
 
+    def _select_forcing_file(self, time_step: int) -> None:
+        """Make sure the open forcing file is the one holding the time step"""
+        if self._first_read:
+            self.open_forcing_file(time_step)  # Open first file
+            self._first_read = False
+        elif self.file_idx[time_step] != self._open_file:  # Open another file
+            self._nc.close()
+            self.open_forcing_file(time_step)
+
     def _read_velocity(self, time_step: int) -> tuple[Field, Field]:
         """Read velocity fields at given time step"""
         # Need a switch for reading W
@@ -589,12 +599,7 @@ class Forcing(BaseForce):
         # Always read velocity before other fields
         logger.info("Reading velocity for time step = %s", time_step)
 
-        if self._first_read:
-            self.open_forcing_file(time_step)  # Open first file
-            self._first_read = False
-        elif self.frame_idx[time_step] == 0:  # Open next file
-            self._nc.close()
-            self.open_forcing_file(time_step)
+        self._select_forcing_file(time_step)
 
         frame = self.frame_idx[time_step]
 
@@ -618,6 +623,7 @@ class Forcing(BaseForce):
 
     def _read_field(self, name: str, n: int) -> Field:
         """Read a 3D field"""
+        self._select_forcing_file(n)
         frame = self.frame_idx[n]
         F0: Field = self._nc.variables[name][frame, :, self.grid.J, self.grid.I]
         if self.scaled[name]:
